@@ -157,6 +157,16 @@ def obsToJson : Obs → Json
   | .err e => obj [("err", Json.str (errName e))]
   | .skipped => obj [("skip", Json.bool true)]
 
+/-- is `b` a rearrangement of `a` -/
+def permKeys : List (List Key) → List (List Key) → Bool
+  | [], b => b.isEmpty
+  | x :: a, b => b.contains x && permKeys a (b.erase x)
+
+/-- `p r s` for every row `r` and every later row `s` -/
+def pairsAll : List (List Cell) → (List Cell → List Cell → Bool) → Bool
+  | [], _ => true
+  | r :: rest, p => rest.all (p r) && pairsAll rest p
+
 /-- what the specification says about an operation on the tables as they are before it:
 for `where` with keywords `{"hyp": whereWF …, "spec": whereS …}` (the two sides of `where_eq_spec`) -/
 def specInfo (cfg : Cfg) (ts : List (Option Table)) (op : TOp) : Json :=
@@ -171,6 +181,18 @@ def specInfo (cfg : Cfg) (ts : List (Option Table)) (op : TOp) : Json :=
                       | .ok rs => rowsToJson rs
                       | .error e => obj [("err", Json.str (errName e))])]
       | .error _ => Json.null
+    | Option.none => Json.null
+  | .index i cols =>
+    match (ts[i]?).bind id with
+    | some t =>
+      let hyp := indexWF cfg t cols
+      match t.rows, (match t.index cfg cols with | .ok t' => t'.rows | .error e => .error e) with
+      | .ok R, .ok R' =>
+        let ks := idxPositions t.columns (effIndex cfg t cols)
+        obj [("hyp", Json.bool hyp),
+             ("perm", Json.bool (permKeys (R.map (List.map Cell.key)) (R'.map (List.map Cell.key)))),
+             ("sorted", Json.bool (pairsAll R' (fun r s => !(lexLt ks s r))))]
+      | _, _ => obj [("hyp", Json.bool hyp), ("perm", Json.bool false), ("sorted", Json.bool false)]
     | Option.none => Json.null
   | _ => Json.null
 
